@@ -41,7 +41,8 @@ META = {
             "sizes 2, 3, 5 and default and two issue modes; TLC merges the per-rank logs with per-rank cursors and accepts a run "
             "only if every delivery and completion matches exactly one send / transfer with identical length and checksum and "
             "nothing is left over.",
-    "note": "Exhaustive: window model for 2 processes, 2 (quick) / 3 (thorough) operations per process, D = 2 (and 3).  Sampled: "
+    "note": "Exhaustive: window model for 2 processes, 4 operations (2 per process), D = 2 (quick) / 5 operations (3 per process), "
+            "D = 2 and 3 (thorough), every order of handshake arrival and completion.  Sampled: "
             "TLC-simulated workloads of 10-24 operations, message sizes 0..4000 bytes, regions 0..4 MiB, windows from 1 up.  A "
             "hang is declared after a generous floor without any completion and re-confirmed by a rerun.  Trusted: TLC, Open MPI, "
             "the harness; the timing of MPI completions is not controlled.",
@@ -200,9 +201,11 @@ def run(ctx):
                                                    "MaxOps": 2 if ctx.quick else 3, "Mixed": True},
                               invariants=("TypeOK", "Completes"))
     ctx.tlc_check(d, mod, cfg, must_cover=("SendAM", "DeliverAM", "Xfer", "XferRemote", "XferLocal"), workers=2, timeout=1500)
-    win = {"NP": 2, "Settings": {(2, 15)} if ctx.quick else {(2, 15), (3, 15), (3, 0), (1, 15)}, "MaxOps": 4 if ctx.quick else 6,
-           "MaxPer": 2 if ctx.quick else 3, "Kinds": {"get", "put"}, "Classes": {"l"} if ctx.quick else {"s", "l"},
-           "Variants": {"ok"}}
+    # quick: 14k states; thorough: 470k states (a 6th operation or a third setting costs > 10 min of CPU).  One payload class is
+    # enough here: a send of class "s" only has MORE completions enabled, and a send waiting for its receive to exist implies a
+    # handshake message that can still arrive, so the stuck states are the same; simulation (below) uses both classes.
+    win = {"NP": 2, "Settings": {(2, 15)} if ctx.quick else {(2, 15), (3, 15)}, "MaxOps": 4 if ctx.quick else 5,
+           "MaxPer": 2 if ctx.quick else 3, "Kinds": {"get", "put"}, "Classes": {"l"}, "Variants": {"ok"}}
     mod, cfg = mcgen.write_mc(d, "win", "EngineImpl", win, invariants=("TypeOK", "WindowOK", "NoDeadlock"),
                               properties=("Refines",), view="NoHist")
     ctx.tlc_check(d, mod, cfg, must_cover=("Issue", "AmArrive", "SendDone", "RecvDone"), workers=4, timeout=3000)
